@@ -16,7 +16,7 @@ CLAIMED = {
  },
  "C07": {
   "category": "exploration",
-  "text": "Seeded search over operation histories {parse_record, parse_record_nocopy, reset} produced by a simulated record layer (arbitrary k-way splits, empty fragments, foreign-type interleaving, duplicates, oversize streams up to the 10 MiB bound, consumer resets) against one real TlsRecordsParser; every call is compared with an executable accumulate-then-parse reference model (Ok / Incomplete / rejection with the stated ErrorKind, messages, remainder, defrag_in_progress, buffer length and content while a defragmentation is in progress when the guarded hook shows them, fast-path results referring to the caller's record), plus a history-level split-group oracle that is independent of the model's state tracking. The component is stateful and the property quantifies over call histories, which is what a simulator with a reference model decides; a clean batch is evidence from sampled histories, not a proof.",
+  "text": "Seeded search over operation histories {parse_record, parse_record_nocopy, reset} produced by a simulated record layer (arbitrary k-way splits incl. complete-but-malformed first messages, empty fragments and runs of hundreds of them, foreign-type interleaving, duplicates, oversize streams up to the 10 MiB bound, a ~10 MiB message that completes followed by a new split, consumer resets) against one real TlsRecordsParser; every call is compared with an executable accumulate-then-parse reference model (Ok / Incomplete / rejection with the stated ErrorKind, messages, remainder, defrag_in_progress, buffer length and content while a defragmentation is in progress when the guarded hook shows them, fast-path results referring to the caller's record), plus a history-level split-group oracle that is independent of the model's state tracking. The component is stateful and the property quantifies over call histories, which is what a simulator with a reference model decides; a clean batch is evidence from sampled histories, not a proof.",
   "design_ref": "DESIGN.md section 3 (C07)",
   "note": "Trusted base: the reference model (about 60 lines) delegates single-payload parsing to the real parse_tls_record_with_header, so C07 is checked as refinement of accumulation, not of payload decoding; heartbeat accumulations > 65535 bytes are unconstrained; the hook accessor verif_defrag_buffer is assumed to return the live buffer.",
   "technique": "deterministic simulation: seeded operation histories with fault injection, call-by-call refinement against an executable reference model",
@@ -30,7 +30,7 @@ CLAIMED = {
  },
  "C03": {
   "category": "exploration",
-  "text": "Seeded search over conversations and record-layer packing plans: which messages share a record is the sending record layer's choice, so the check simulates peers, a packing record layer and a byte pipe, and compares what the real one-step and two-step pipelines deliver with the sender's log (same count, same order, every field equal through an independent value walker, exactly-once over the whole history, two-step remainder by address), plus a malformed-peer batch of constructively malformed payloads whose verdict is certain. Sampled conversations: evidence, not proof.",
+  "text": "Seeded search over conversations and record-layer packing plans: which messages share a record is the sending record layer's choice, so the check simulates peers, a packing record layer and a byte pipe, and compares what the real one-step and two-step pipelines deliver with the sender's log (same count, same order, every field equal through an independent value walker, exactly-once over the whole history, two-step remainder by address, the raw step framing every record the one-step parser decodes - also just above the length cap), over RFC-valid field values with the inner structure real traffic carries one time in three, plus a malformed-peer batch of constructively malformed payloads whose verdict is certain. Sampled conversations: evidence, not proof.",
   "design_ref": "DESIGN.md section 3 (C03)",
   "note": "Trusted base: the reference encoder (abstract message -> bytes) and the value->abstract walker; field values are sampled with boundary bias; handshake bodies are compared only on well-formed encodings (rejection lists of C04 are not explored).",
   "technique": "deterministic simulation: seeded peers + record-layer packing + byte pipe, sent-log vs delivered-log oracle over one-step and two-step pipelines",
@@ -51,7 +51,7 @@ CLAIMED = {
  },
  "C10": {
   "category": "exploration",
-  "text": "DTLS exists because datagrams are lost, duplicated, reordered and size-limited; fragmentation, several records per datagram and the header fields a reassembler needs are consequences of the transport. The check simulates a DTLS sender (flights, MTU fragmentation, retransmit timers on a simulated clock with MTU change), a faulty datagram network (loss, duplication, reordering, truncation at any byte) and a monitor running the real DTLS parsers on every delivered datagram. Per datagram: reference 13-byte framer (cap, exact consumption, Incomplete iff truncated inside the record, exact Needed), header and 12-byte handshake header fields verbatim against the sender's log, fragment predicate, fragment body by address, decoded bodies of the listed kinds, CCS/alert, record order. End to end: a harness reassembler fed only with what the real parser returned must rebuild, byte-exact, every message all of whose bytes were delivered in fragments, and the rebuilt message must decode to the sent value. Conversations are sampled: evidence, not proof.",
+  "text": "DTLS exists because datagrams are lost, duplicated, reordered and size-limited; fragmentation, several records per datagram and the header fields a reassembler needs are consequences of the transport. The check simulates a DTLS sender (flights, MTU fragmentation, retransmit timers on a simulated clock with MTU change), a faulty datagram network (loss, duplication, reordering, truncation at any byte) and a monitor running the real DTLS parsers on every delivered datagram. Per datagram: reference 13-byte framer (cap, exact consumption, Incomplete iff truncated inside the record), header and 12-byte handshake header fields verbatim against the sender's log, fragment predicate, fragment body by address, decoded bodies of the listed kinds (RFC-valid values), CCS/alert, record order, and a datagram made only of decodable records yields exactly those records from the many-record parser. End to end: a harness reassembler fed only with what the real parser returned must rebuild, byte-exact, every message all of whose bytes were delivered in fragments, and the rebuilt message must decode to the sent value. Conversations are sampled: evidence, not proof.",
   "design_ref": "DESIGN.md section 3 (C10)",
   "note": "Trusted base: reference encoder, 13-byte framer, sender log; the parser is stateless, so transport faults generate field combinations rather than parser states; unfragmented messages of unlisted kinds are unconstrained.",
   "technique": "deterministic simulation: DTLS sender with retransmit timers on a simulated clock + faulty datagram network, per-datagram sender-log oracle and end-to-end reassembly conservation",
